@@ -46,6 +46,7 @@ def units(tier):
     out.append({'fam': 'many', 'wide': True, 'shard': [0, 1], 'tier': tier})
     for sh in range(2):
         out.append({'fam': 'top', 'inner': 'to_list', 'L': 5 if tier == 'quick' else 6, 'shard': [sh, 2], 'alpha': [0, 1, 2, 3, 4], 'keyf': 'k_falsy'})
+        out.append({'fam': 'top', 'inner': 'to_list', 'L': 5 if tier == 'quick' else 6, 'shard': [sh, 2], 'alpha': [0, 1, 2, 3, 4], 'keyf': 'k_bool'})
     ng = 10 if tier == 'quick' else 13
     for sh in range(8):
         out.append({'fam': 'many', 'groups': ng, 'shard': [sh, 8]})
